@@ -3,6 +3,7 @@ import RtcVerif.Model.Merge
 import RtcVerif.Proofs.InterpLemmas
 import RtcVerif.Proofs.NumOrder
 import RtcVerif.Proofs.MergeLemmas
+import RtcVerif.Proofs.InterpCode
 import Mathlib.Algebra.Order.Field.Basic
 /-!
 # C19 — interpolation and bound merging behave as documented for every input shape
@@ -323,5 +324,108 @@ example : interpCore 0 [(0, 10), (1, 20), (3, 40)] (some .nan) (some .nan) 2 = .
 example : mergeBounds (.sc (.fin 1)) (.vec [.fin 5, .pinf]) (.vec [.fin 0, .fin 2]) (.sc (.fin 4))
     = some (.vec [.fin 1, .fin 2], .vec [.fin 4, .fin 4]) := by
   decide +kernel
+
+/-! ### The code as written (translated from the source on every run) is the model
+
+`Model/InterpCode.lean` holds `coreRef` / `scalarRef` / `arrayRef` / `symRef`: `__interpolate`,
+`interpolate` and `casadi_helpers.interpolate` as written, over NumPy-level primitives (prefix counts,
+index reads, `np.interp`, `ca.interp1d`).  harness/translate_c19.py regenerates the same functions from
+/repo on every run and proves them equal to these references; the theorems below connect the references
+to the model all the theorems above are about.  `None` never reaches a result. -/
+
+open RtcVerif.InterpCode in
+/-- `__interpolate` as written (scalar query: `arr = false`; one element of an array query:
+    `arr = true`) computes the model's `interpCore`. -/
+theorem code_core_is_model (arr : Bool) (mode : Nat) (ks : Knots) (fl fr : Fill) (t : Rat)
+    (hne : ks ≠ []) (hfl : firstTime ks ≤ lastTime ks) :
+    coreRef arr mode ks fl fr t = embed (interpCore mode ks fl fr t) := by
+  obtain ⟨⟨t0, f0⟩, rest, rfl⟩ := List.exists_cons_of_ne_nil hne
+  have hft : firstTime ((t0, f0) :: rest) = t0 := rfl
+  rw [hft] at hfl
+  unfold coreRef interpCore
+  rw [hft]
+  by_cases h1 : t < t0
+  · have h2 : ¬ lastTime ((t0, f0) :: rest) < t := by
+      intro h; exact absurd (lt_of_lt_of_le h1 hfl) (not_lt.2 (le_of_lt h))
+    cases fl with
+    | none =>
+      match mode with
+      | 0 | 1 | 2 => simp [h1, fillOut, embed]
+      | _ + 3 => simp [h1, embed]
+    | some v =>
+      match mode with
+      | 0 => simp [h1, h2, npInterp, hft, fillOut, embed]
+      | 1 => cases arr <;> simp [h1, h2, fillsRef, hft, fillOut, fillC, embed]
+      | 2 => cases arr <;> simp [h1, h2, fillsRef, hft, fillOut, fillC, embed]
+      | _ + 3 => simp [h1, h2, embed]
+  · by_cases h2 : lastTime ((t0, f0) :: rest) < t
+    · cases fr with
+      | none =>
+        match mode with
+        | 0 | 1 | 2 => simp [h1, h2, fillOut, embed]
+        | _ + 3 => simp [h1, h2, embed]
+      | some v =>
+        match mode with
+        | 0 => simp [h1, h2, npInterp, hft, fillOut, embed]
+        | 1 => cases arr <;> simp [h1, h2, fillsRef, hft, fillOut, fillC, embed]
+        | 2 => cases arr <;> simp [h1, h2, fillsRef, hft, fillOut, fillC, embed]
+        | _ + 3 => simp [h1, h2, embed]
+    · have hle : t ≤ lastTime ((t0, f0) :: rest) := not_lt.1 h2
+      match mode with
+      | 0 =>
+        simp only [h1, h2, and_false, if_false, if_true, npInterp, hft]
+        rw [linFrom_indep (t0, f0) rest (fillOut fr) .raise t hle]
+      | 1 =>
+        cases arr <;>
+          simp [h1, h2, fillsRef, hft, embed, prev_code t0 f0 rest t (not_lt.1 h1)]
+      | 2 =>
+        have hn := next_code (t0, f0) rest (lastVal ((t0, f0) :: rest)) t
+        have e : ((((t0, f0) :: rest : Knots).length : Nat) : Int) - 1 = (rest.length : Int) := by
+          simp only [List.length_cons]; omega
+        rw [e] at hn
+        cases arr <;> simp [h1, h2, fillsRef, hft, embed, hn]
+      | _ + 3 => simp [h1, h2, embed]
+
+open RtcVerif.InterpCode in
+/-- `interpolate` as written, scalar query. -/
+theorem code_scalar_is_model (mode : Nat) (ks : Knots) (fl fr : Fill) (t : Rat)
+    (hne : ks ≠ []) (hfl : firstTime ks ≤ lastTime ks) :
+    scalarRef mode ks fl fr t = embed (interpScalar mode ks fl fr t) := by
+  unfold scalarRef
+  rw [code_core_is_model false mode ks fl fr t hne hfl]
+  obtain ⟨⟨t0, f0⟩, rest, rfl⟩ := List.exists_cons_of_ne_nil hne
+  by_cases h : t0 = t <;> simp [interpScalar, firstTime, firstVal, h, embed]
+
+open RtcVerif.InterpCode in
+/-- `interpolate` as written, array query. -/
+theorem code_array_is_model (mode : Nat) (ks : Knots) (fl fr : Fill) (qs : List Rat)
+    (hne : ks ≠ []) (hfl : firstTime ks ≤ lastTime ks) :
+    arrayRef mode ks fl fr qs = interpArray mode ks fl fr qs := by
+  unfold arrayRef interpArray
+  have hc : qs.map (coreRef true mode ks fl fr) = (qs.map (interpCore mode ks fl fr)).map embed := by
+    rw [List.map_map]
+    exact List.map_congr_left (fun t _ => code_core_is_model true mode ks fl fr t hne hfl)
+  rw [hc, sequenceC_map_embed]
+  by_cases h : qs = ks.map (·.1)
+  · have hl : qs.length = ks.length := by rw [h, List.length_map]
+    simp [hne, h]
+  · simp [hne, h]
+
+open RtcVerif.InterpCode in
+/-- sorted knots satisfy the side condition of the three theorems above -/
+theorem sorted_first_le_last (ks : Knots) (hs : Sorted ks) (hne : ks ≠ []) :
+    firstTime ks ≤ lastTime ks := by
+  obtain ⟨⟨t0, f0⟩, rest, rfl⟩ := List.exists_cons_of_ne_nil hne
+  exact hs.le_last (t0, f0) (List.mem_cons_self ..)
+
+open RtcVerif.InterpCode in
+/-- `casadi_helpers.interpolate` as written (mode → "linear" / "floor" / "ceil") is the model's
+    symbolic interpolant for the three documented modes. -/
+theorem code_sym_is_model (mode : Nat) (hm : mode ≤ 2) (ks : Knots) (t : Rat) :
+    symRef mode ks t = interpSym mode ks t := by
+  match mode, hm with
+  | 0, _ => rfl
+  | 1, _ => rfl
+  | 2, _ => rfl
 
 end RtcVerif.C19
